@@ -30,7 +30,7 @@ ID = r'[A-Za-z_][A-Za-z0-9_]*'
 def r1(orig, rule):
     # for (I, &X) in E.iter().enumerate() {   ->  for I in 0..E.len() { let X = E[I];
     s = norm(orig)
-    m = _m(r'for \( (%s) , & (%s) \) in (.+?) \. iter \( \) \. enumerate \( \) \{' % (ID, ID), s)
+    m = _m(r'for \( (%s) , & (%s|\( %s(?: , %s)* \)) \) in (.+?) \. iter \( \) \. enumerate \( \) \{' % (ID, ID, ID, ID), s)
     i, x, e = m.groups()
     return 'for %s in 0..%s.len() { let %s = %s[%s];' % (i, e, x, e, i)
 
@@ -432,7 +432,8 @@ def rty(orig, rule):
     # let mut X = LITERAL;  ->  let mut X: T = LITERAL;     (type ascription only: rustc rejects it if the inferred type differs)
     ty = rule.split()[1]
     s = norm(orig)
-    m = _m(r'let (mut )?(%s) = ([0-9_]+) ;' % ID, s)
+    ty = rule.split(None, 1)[1]
+    m = _m(r'let (mut )?(%s) = (.+) ;' % ID, s)
     return 'let %s%s: %s = %s;' % (m.group(1) or '', m.group(2), ty, m.group(3))
 
 
@@ -475,6 +476,22 @@ def rpanic(orig, rule):
     return 'assert!(%s);' % m.group(1)
 
 
+def r31(orig, rule):
+    # for X in V {   (V an owned Vec of Copy items, consumed by the loop)  ->  for __e in 0..V.len() { let X = V[__e];
+    s = norm(orig)
+    m = _m(r'for (%s) in (%s) \{' % (ID, ID), s)
+    x, v = m.groups()
+    return 'for __e in 0..%s.len() { let %s = %s[__e];' % (v, x, v)
+
+
+def rvec(orig, rule):
+    # FIELD: vec![V; N],   (V a Copy value)  ->  FIELD: { let mut __v = Vec::new(); let __x = V; let __n = N; for __i in 0..__n { __v.push(__x); } __v },
+    s = norm(orig)
+    m = _m(r'(%s) : vec ! \[ (.+?) ; (.+?) \] ,' % ID, s)
+    f, v, n = m.groups()
+    return '%s: { let mut __v = Vec::new(); let __x = %s; let __n = %s; for __i in 0..__n { __v.push(__x); } __v },' % (f, v, n)
+
+
 def r1b(orig, rule):
     # for (I, X) in E.iter().enumerate() {   ->  for I in 0..E.len() { let X = &E[I];      (X bound to a reference, as the iterator yields)
     s = norm(orig)
@@ -492,7 +509,7 @@ def r1t(orig, rule):
 
 
 GENERATORS = {
-    'R1b': r1b, 'R1t': r1t, 'R22': r22, 'R23': r23, 'R24': r24, 'R18m': r18m, 'RRET': rret, 'R26': r26, 'R18a': r18a, 'RTY': rty, 'R29': r29, 'R30': r30, 'R30t': r30t, 'R28': r28, 'RPANIC': rpanic,
+    'R1b': r1b, 'R1t': r1t, 'R22': r22, 'R23': r23, 'R24': r24, 'R18m': r18m, 'RRET': rret, 'R26': r26, 'R18a': r18a, 'RTY': rty, 'R31': r31, 'RVEC': rvec, 'R29': r29, 'R30': r30, 'R30t': r30t, 'R28': r28, 'RPANIC': rpanic,
     'RBW': rbw,
     'R4m': r4m,
     'R12m': r12m,
